@@ -121,6 +121,12 @@ func (pc *polyCtx) of(v ssa.Value, d int) poly {
 	if k, isK := core.ConstInt(v); isK {
 		return poly{"": k}.norm()
 	}
+	// the length of a freshly made slice is the length it was made with
+	if x, isLen := core.IsLenOf(v); isLen && d < 16 {
+		if mk, isMk := core.StripConv(x).(*ssa.MakeSlice); isMk {
+			return pc.of(mk.Len, d+1)
+		}
+	}
 	if bo, isB := v.(*ssa.BinOp); isB && d < 16 {
 		switch bo.Op {
 		case token.ADD:
